@@ -5,6 +5,8 @@ use vcore::report::*;
 #[macro_use]
 mod builders;
 mod c0103;
+mod c02;
+mod c13;
 mod c14;
 mod c15;
 mod c16;
@@ -51,7 +53,9 @@ fn main() {
     quiet_panics();
     let summary = match property.as_str() {
         "C01" => c0103::run(&run, false),
+        "C02" => c02::run(&run),
         "C03" => c0103::run(&run, true),
+        "C13" => c13::run(&run),
         "C14" => c14::run(&run),
         "C15" => c15::run(&run),
         "C16" => c16::run(&run),
